@@ -118,7 +118,7 @@ func c06Eval(n *c06Node, leaves []sv) sres {
 }
 
 // a small domain on which the groupings of every operator pair can be told apart
-var c06Domain = []float64{-3, -1, 0, 0.5, 2, 7}
+var c06Domain = []float64{-3, -1, 0, 0.5, 2, 7, 0.1, 0.3} // two inexact ones: regrouping + or * then shows as a rounding difference
 
 // c06Operands: mode 0 = a small finite domain (table lifting: no FP theory, quick witnesses),
 // mode 1 = all finite doubles.
